@@ -44,8 +44,11 @@ def get_angle_spec_from_float(angle: float, tol: float = 1e-4) -> List[Tuple[int
     # Max value of `n`
     n_max = 2**IMMEDIATE_BITS - 1
 
+    # `rest` is expressed in units of pi, so the tolerance (given in radians) has to be as well
+    tol_rest = tol / np.pi
+
     nds = []
-    while rest > tol:
+    while rest > tol_rest:
         # Find the largest `d` such that `rest <= n_max / 2 ^ d`
         d = int(np.floor(np.log2(n_max / rest)))
         # Find largest `n` such that `rest >= n / 2 ^ d`
